@@ -115,6 +115,9 @@ func runLedger(r *Run, prop string) {
 		}
 	}
 	nchains := r.pick(40, 600)
+	if prop == "C04" {
+		nchains = r.pick(16, 200)
+	}
 	for ci := 0; ci < nchains; ci++ {
 		n := r.ledgerNet()
 		allow, require := r.ledgerEra(ci)
